@@ -4,7 +4,7 @@
    check, not proved. *)
 From Coq Require Import List NArith ZArith Arith.
 Import ListNotations.
-From PP Require Import Base Syntax Spec SpecWf LineCol LineColProof.
+From PP Require Import Base Syntax Spec SpecWf LineCol LineColProof Interp Gen GenProof MachineCor.
 
 (* whenever parsing fails, the furthest-failure position is the sentinel -1 or lies in
    [start_pos, len(input)] *)
@@ -41,7 +41,39 @@ Qed.
 Example c13_after_trailing_newline : error_context [97; 10]%N 2 = ([], 2, 1).
 Proof. reflexivity. Qed.
 
+
+(* ---- the same for the two machines as modelled (Interp.v: the interpreter; Gen.v: the generated
+   code; each tied exactly to its execution mode on every run), by the refinement theorems
+   (MachineCor.v). Side conditions as in C01: `one_modifier g` (a silent rule is not $ or !),
+   `inl_ok g inl` (built-in rules emitted in place are plain silent rules). *)
+Theorem C13_interpreter_position_valid : forall g, one_modifier g ->
+  forall f rule input k s ps, k <= length input ->
+  iparse g f rule input k = IOk false s ps ->
+  t_pos (i_trk s) = (-1)%Z \/ (Z.of_nat k <= t_pos (i_trk s) <= Z.of_nat (length input))%Z.
+Proof. exact machine_C13_position_interp. Qed.
+Theorem C13_interpreter_names_valid : forall g, one_modifier g ->
+  forall f rule input k s ps, k <= length input ->
+  iparse g f rule input k = IOk false s ps ->
+  Forall (fun n => exists r, lookup g n = Some r) (t_exp (i_trk s)) /\
+  Forall (fun n => exists r, lookup g n = Some r) (t_unexp (i_trk s)).
+Proof. exact machine_C13_names_interp. Qed.
+Theorem C13_generated_position_valid : forall g inl, one_modifier g -> inl_ok g inl ->
+  forall f rule input k s ps, inlined inl rule = false -> k <= length input ->
+  gparse g inl f rule input k = GOk false s ps ->
+  t_pos (i_trk s) = (-1)%Z \/ (Z.of_nat k <= t_pos (i_trk s) <= Z.of_nat (length input))%Z.
+Proof. exact machine_C13_position_gen. Qed.
+Theorem C13_generated_names_valid : forall g, one_modifier g ->
+  forall f rule input k s ps, k <= length input ->
+  gparse g [] f rule input k = GOk false s ps ->
+  Forall (fun n => exists r, lookup g n = Some r) (t_exp (i_trk s)) /\
+  Forall (fun n => exists r, lookup g n = Some r) (t_unexp (i_trk s)).
+Proof. exact machine_C13_names_gen. Qed.
+
 Print Assumptions C13_position_valid.
 Print Assumptions C13_names_valid.
 Print Assumptions C13_context_is_line_col.
 Print Assumptions C13_line_col_of_position.
+Print Assumptions C13_interpreter_position_valid.
+Print Assumptions C13_interpreter_names_valid.
+Print Assumptions C13_generated_position_valid.
+Print Assumptions C13_generated_names_valid.
